@@ -62,7 +62,7 @@ static long kvl(const char *key, long def) { const char *v = kv(key); return v ?
 static unsigned long long kvu(const char *key, unsigned long long def) { const char *v = kv(key); return v ? strtoull(v, NULL, 0) : def; }
 unsigned char *kx_hexarg(const char *s, size_t *len) { if (!s || !strcmp(s, "-")) { *len = 0; return vh_exact("", 0); } { size_t n; unsigned char *p = vh_unhex(s, &n); unsigned char *q = vh_exact(p, n); free(p); *len = n; return q; } }
 
-static void logcb(void *c, int level, const char *msg) { (void)level; (void)msg; (*(unsigned long *)c)++; }
+static void logcb(void *c, int level, const char *msg) { (*(unsigned long *)c)++; if (getenv("KX_LOG")) fprintf(stderr, "LOG[%d] %s\n", level, msg); }
 
 static const KSI_Policy *policy_by_name(const char *n) {
 	if (!strcmp(n, "internal")) return KSI_VERIFICATION_POLICY_INTERNAL;
